@@ -1,0 +1,89 @@
+//go:build verif
+
+// Hooks for the /verif property checks C03..C06. Add-only, compiled only with -tags verif.
+// Thin exported wrappers over unexported consensus internals (voteSet, dsmLog, WAL
+// housekeeping); they contain no logic of their own.
+
+package consensus
+
+import "github.com/icon-project/goloop/module"
+
+// VerifVoteSet wraps the unexported voteSet.
+type VerifVoteSet struct {
+	vs *voteSet
+}
+
+func VerifNewVoteSet(nValidators int) *VerifVoteSet {
+	return &VerifVoteSet{newVoteSet(nValidators)}
+}
+
+func (v *VerifVoteSet) Add(index int, msg *VoteMessage) bool {
+	return v.vs.add(index, msg)
+}
+
+func (v *VerifVoteSet) HasOverTwoThirds() bool {
+	return v.vs.hasOverTwoThirds()
+}
+
+func (v *VerifVoteSet) GetOverTwoThirdsPartSetID() (*PartSetID, bool) {
+	return v.vs.getOverTwoThirdsPartSetID()
+}
+
+func (v *VerifVoteSet) GetOverTwoThirdsRoundDecisionDigest() ([]byte, *PartSetID, bool) {
+	return v.vs.getOverTwoThirdsRoundDecisionDigest()
+}
+
+// Count returns the number of filled slots as the voteSet accounts it.
+func (v *VerifVoteSet) Count() int {
+	return v.vs.count
+}
+
+// MessageAt returns the vote currently held in slot i (nil if empty).
+func (v *VerifVoteSet) MessageAt(i int) *VoteMessage {
+	return v.vs.msgs[i]
+}
+
+// OverTwoThirdsVoteCount returns the length of voteListForOverTwoThirds (-1 if none).
+func (v *VerifVoteSet) OverTwoThirdsVoteCount() int {
+	vl := v.vs.voteListForOverTwoThirds()
+	if vl == nil {
+		return -1
+	}
+	return vl.Len()
+}
+
+// VerifVoteDigest returns the round decision digest of a vote.
+func VerifVoteDigest(msg *VoteMessage) []byte {
+	return msg.RoundDecisionDigest()
+}
+
+// VerifDSMLog wraps the unexported dsmLog.
+type VerifDSMLog struct {
+	l dsmLog
+}
+
+func VerifNewDSMLog(cap int) *VerifDSMLog {
+	return &VerifDSMLog{makeDSMLog(cap)}
+}
+
+func (d *VerifDSMLog) LogAndCheckVoteMessage(msg *VoteMessage) []module.DoubleSignData {
+	return d.l.LogAndCheckVoteMessage(msg)
+}
+
+func (d *VerifDSMLog) LogAndCheckProposalMessage(msg *ProposalMessage) []module.DoubleSignData {
+	return d.l.LogAndCheckProposalMessage(msg)
+}
+
+// VerifWALHousekeep runs one housekeeping pass of a file WAL writer (what the ticker does)
+// and reports the tail segment index before and after it.
+func VerifWALHousekeep(w WALWriter) (before uint64, after uint64) {
+	ww := w.(*walWriter)
+	ww.mutex.Lock()
+	before = ww.tailIdx
+	ww.mutex.Unlock()
+	ww.doHousekeeping()
+	ww.mutex.Lock()
+	after = ww.tailIdx
+	ww.mutex.Unlock()
+	return before, after
+}
